@@ -1,6 +1,7 @@
 import PgVerif.Proofs.LRSound
 import PgVerif.Proofs.Chart
 import PgVerif.Proofs.LRDet
+import PgVerif.Model.Decode
 /-!
 # C04 — LR parser is sound always (and exact when its table is deterministic)
 
@@ -83,6 +84,23 @@ theorem C04_exact_when_deterministic (g : Grammar) (T : Table) (inp : Input)
   · exact C04_complete_when_deterministic g T inp I F hv hT hL hfin hin lexDis
   · rintro ⟨fuel, t, e, p, h⟩
     exact ⟨t, C04_sound g T inp hw lexDis fuel t e p h⟩
+
+/-- The same for the tables and inputs the compiled driver decodes from the implementation's dumps:
+the side conditions on the data (`InputOK`, table empty beyond its states) are theorems about the
+decoder (`Model/Decode.lean`), so only executable hypotheses remain — `Table.wf`, the completeness
+validator, `detTableB`, `lexDetB` — and all four are evaluated by the driver on that very data. -/
+theorem C04_exact_on_decoded_data (g : Grammar) (states : Array StateData) (terms : Array (Nat × Bool))
+    (len : Nat) (skips : Array Nat) (ms : List (Nat × Nat × Nat)) (hsk : skips.size = len + 1)
+    (I : Nat → List LRV.VItem) (F : LRV.FirstData)
+    (hw : (Table.ofStates states terms).wf g = true)
+    (hv : LRV.lrComplete g (Table.ofStates states terms) I F = true)
+    (hT : detTableB (Table.ofStates states terms) = true)
+    (hL : lexDetB (Table.ofStates states terms) (Input.ofTables len skips ms) = true) (lexDis : Bool) :
+    Sentence g (Input.ofTables len skips ms) ↔ ∃ (fuel : Nat) (t : Tree) (e p : Nat),
+      parseLR g (Table.ofStates states terms) (Input.ofTables len skips ms)
+        { consumeInput := true, lexDis := lexDis } fuel = .ok t e p :=
+  C04_exact_when_deterministic g _ _ I F hw hv hT hL (Table.ofStates_fin states terms)
+    (Input.ofTables_ok len skips ms hsk) lexDis
 
 /-! Non-vacuity: the grammar `S → a` with its LR table is well formed and the
 driver accepts the input `a`. -/
